@@ -111,7 +111,7 @@ def render_line(st: dict, k: str, n: int, sheb_idx: int = 0) -> str:
 
 
 def render_body(st: dict, body: list, eol: str, final_nl: bool, bom: bool, sheb_idx: int = 0, tws_line: int = 0,
-                quote: bool = False, exotic: bool = False) -> tuple:
+                quote: bool = False, exotic: bool = False, longfirst: int = 0) -> tuple:
     """-> (bytes, [line strings]).  quote: a code line above the first one-line tagged comment carries that comment's
     exact bytes inside a string literal (still a code line: to be kept byte for byte)."""
     lines = []
@@ -120,6 +120,9 @@ def render_body(st: dict, body: list, eol: str, final_nl: bool, bom: bool, sheb_
         if tws_line == i and ln["k"] in ("code", "sc", "fc"):
             s += "   "
         lines.append(s)
+    if longfirst and body and body[0]["k"] in ("code", "icode", "fc"):
+        # a first line so long that the first line break of the file lies at or beyond character 4096
+        lines[0] = lines[0] + " " + "y" * max(0, longfirst - len(lines[0]) - 1)
     if exotic:
         # code lines carry characters that str.splitlines() treats as line boundaries although they end no line of the file
         for i, ln in enumerate(body):
@@ -192,5 +195,11 @@ def project_post(pre_lines: list, pre_ids: list, post: dict) -> list:
     return out
 
 
-def annotate(root: Path, files: list, opts: list, cwd=None) -> dict:
-    return core.run_reuse(["--root", str(root), "annotate", *opts, *[str(f) for f in files]], cwd=cwd)
+C_LOCALE = {"LC_ALL": "C", "LANG": "C", "PYTHONUTF8": "0", "PYTHONCOERCECLOCALE": "0"}
+
+
+def annotate(root: Path, files: list, opts: list, cwd=None, locale_c: bool = False) -> dict:
+    args = ["--root", str(root), "annotate", *opts, *[str(f) for f in files]]
+    if locale_c:       # a fresh interpreter whose locale is not UTF-8 (what it writes is UTF-8 all the same)
+        return core.run_reuse_subprocess(args, cwd=cwd, env=C_LOCALE)
+    return core.run_reuse(args, cwd=cwd)
